@@ -1,1 +1,365 @@
-/-! C35 — property theorems (stub: nothing proved yet). -/
+import B6.Model.Locksets
+import B6.Lemmas.Locksets
+import B6.Gen.Locksets
+/-!
+# C35 — Concurrent readers and parallel builders are race-free   (level: exploration + the proofs below)
+
+What is **proved** here, for all interleavings and any number of goroutines:
+* `lockset_sound` — threads that hold a common mutex at every access to a cell (or only read it) never reach
+  a state in which two of them are about to access the cell with one access a write;
+* `compact_cells_race_free` — the same for the lazily cached fields of the compact world (`FeaturesByID.cache`,
+  `wrappedMarshalledPhysicalFeature.polyline`, `marshalledArea.geometry/polygons`), from the access table that
+  `/verif/tools/locksets` regenerates from the source on every run (`B6.Gen.Locksets`);
+* `cache_transparent` / `lru_transparent` — the fill-once cell returns the uncached value to every caller and
+  is written at most once; `FindFeatureByID` with its LRU returns what `findWithoutCache` returns, whatever
+  was evicted;
+* `finish_stage_race_free` — with the stage filters found in the source, no validation worker of
+  `BasicWorldBuilder.Finish` writes a feature another worker of the same stage reads or writes
+  (`finish_single_stage_conflict`: with one stage for everything — the code before
+  `fixes/C37-finish-validate-paths-before-areas.patch` — the in-place reversal of a path races with the
+  validation of an area over it).
+What is **checked against the source** (`by decide` on the regenerated file): the access table, that every
+access of an entry method is under the struct's own lock, that the two lock-free helpers are only called with
+the lock held and only from their own type, that nothing else in the package touches the cells, that no other
+field of a mutex-bearing struct is written outside the listed places, and the shape of `Finish`.
+What is **exploration** only: everything the race detector run covers beyond these cells (see notes/C35.md).
+-/
+namespace B6.Props.C35
+open B6.Model.Proto B6.Model.Locksets B6.Lemmas.Locksets
+
+/-! ## generic: locksets -/
+
+theorem reachable_linv {progs : List (List Action)} {s : LState} (h : Reachable lstep (linit progs) s) :
+    LInv progs s :=
+  Reachable.invariant (LInv progs) (linv_init progs) (fun s s' => linv_step progs s s') s h
+
+/-- **Lockset soundness.** If every access to cell `x`, in every thread's program, is made while holding
+mutex `L` — or no program writes `x` at all — then in no reachable state are two different threads both about
+to access `x` with one of the accesses a write. -/
+theorem lockset_sound (progs : List (List Action)) (x L : Nat)
+    (hd : Disciplined progs x L ∨ ∀ p ∈ progs, Action.write x ∉ p)
+    (s : LState) (hr : Reachable lstep (linit progs) s) : ¬ RacyOn s x := by
+  have hinv := reachable_linv hr
+  rintro ⟨i, j, ti, tj, ai, aj, hij, hi, hj, hni, hnj, hci, hcj, hw⟩
+  have hpi : ti.prog ∈ progs := by
+    rw [← hinv.shape]; exact List.mem_map.mpr ⟨ti, List.mem_of_getElem? hi, rfl⟩
+  have hpj : tj.prog ∈ progs := by
+    rw [← hinv.shape]; exact List.mem_map.mpr ⟨tj, List.mem_of_getElem? hj, rfl⟩
+  rcases hd with hd | hro
+  · have h1 := hd ti.prog hpi ti.pc ai hni hci
+    have h2 := hd tj.prog hpj tj.pc aj hnj hcj
+    have o1 := (hinv.own L i).mpr ⟨ti, hi, h1⟩
+    have o2 := (hinv.own L j).mpr ⟨tj, hj, h2⟩
+    rw [o1] at o2
+    exact hij (by simpa using o2)
+  · rcases hw with hw | hw
+    · cases ai <;> simp [Action.isWrite] at hw
+      simp [Action.cell?] at hci; subst hci
+      exact hro ti.prog hpi (List.mem_of_getElem? hni)
+    · cases aj <;> simp [Action.isWrite] at hw
+      simp [Action.cell?] at hcj; subst hcj
+      exact hro tj.prog hpj (List.mem_of_getElem? hnj)
+
+/-! ## the cache cells -/
+
+theorem reachable_cellInv {compute n : Nat} {s : CellState} (h : Reachable (cellStep compute) (cellInit n) s) :
+    CellInv compute s :=
+  Reachable.invariant (CellInv compute) (cellInv_init compute n) (fun s s' => cellInv_step compute s s') s h
+
+/-- **The fill-once cell is transparent** (`polyline`, `geometry`, `polygons[i]`): for any number of concurrent
+callers, in every reachable state, every caller that has read its result got the uncached value; the cell is
+written at most once, and never again once it is set; at most one caller is between `Lock` and `Unlock`. -/
+theorem cache_transparent (compute n : Nat) (s : CellState) (h : Reachable (cellStep compute) (cellInit n) s) :
+    (∀ (j : Nat) (c : Caller), s.callers[j]? = some c → (c.pc = .unlock ∨ c.pc = .done) → c.result = some compute) ∧
+    s.writes ≤ 1 ∧ (s.cell = none ∨ s.cell = some compute) ∧
+    (∀ (i j : Nat) (ci cj : Caller), s.callers[i]? = some ci → s.callers[j]? = some cj →
+        inCS ci.pc = true → inCS cj.pc = true → i = j) := by
+  have hi := reachable_cellInv h
+  refine ⟨hi.res, ?_, hi.val, ?_⟩
+  · cases hc : s.cell with
+    | none => rw [hi.once.1 hc]; omega
+    | some v => rw [hi.once.2 (by rw [hc]; simp)]; omega
+  · intro i j ci cj h1 h2 c1 c2
+    have a := (hi.hold i ci h1).mp c1
+    have b := (hi.hold j cj h2).mp c2
+    rw [a] at b; simpa using b
+
+theorem reachable_lruInv {cap : Nat} {find : Nat → Option Nat} {todos : List (List Nat)} {s : LruState}
+    (h : Reachable (lruStep cap find) (lruInit todos) s) : LruInv cap find s :=
+  Reachable.invariant (LruInv cap find) (lruInv_init cap find todos) (fun s s' => lruInv_step cap find s s') s h
+
+/-- **`FindFeatureByID` with its LRU is transparent**: for any capacity, any uncached function, any number of
+concurrent callers with any lookup sequences, every answer equals the uncached answer; every cached entry is a
+correct one; the cache never exceeds its capacity. -/
+theorem lru_transparent (cap : Nat) (find : Nat → Option Nat) (todos : List (List Nat)) (s : LruState)
+    (h : Reachable (lruStep cap find) (lruInit todos) s) :
+    (∀ (j : Nat) (q : Querier), s.queriers[j]? = some q → ∀ r ∈ q.results, r.2 = find r.1) ∧
+    (∀ p ∈ s.cache, find p.1 = some p.2) ∧ s.cache.length ≤ cap := by
+  have hi := reachable_lruInv h
+  exact ⟨hi.results, hi.entries, hi.size⟩
+
+/-! ## the stages of `Finish` -/
+
+theorem conflict_area_free (f g : BFeature) (hf : f.isArea = false) (hg : g.isArea = false) : conflict f g = false := by
+  unfold conflict vWrites vReads
+  unfold BFeature.isArea at hf hg
+  cases hfk : f.kind <;> cases hgk : g.kind <;> simp_all
+
+theorem conflict_areas (f g : BFeature) (hf : f.isArea = true) (hg : g.isArea = true) : conflict f g = false := by
+  unfold conflict vWrites vReads
+  unfold BFeature.isArea at hf hg
+  cases hfk : f.kind <;> cases hgk : g.kind <;> simp_all
+
+/-- **Two stages are race-free**: for every feature set, neither the stage of the non-areas nor the stage of
+the areas contains two workers of which one writes what the other reads or writes. -/
+theorem finish_stage_race_free (fs : List BFeature) :
+    stageConflict (stageOf "!=FeatureTypeArea" fs) = false ∧ stageConflict (stageOf "==FeatureTypeArea" fs) = false := by
+  constructor
+  · unfold stageConflict
+    apply List.any_eq_false.mpr
+    intro f hf
+    simp only [Bool.not_eq_true]
+    apply List.any_eq_false.mpr
+    intro g hg
+    simp only [stageOf] at hf hg
+    simp at hf hg
+    simp only [Bool.not_eq_true]
+    exact conflict_area_free f g hf.2 hg.2
+  · unfold stageConflict
+    apply List.any_eq_false.mpr
+    intro f hf
+    simp only [Bool.not_eq_true]
+    apply List.any_eq_false.mpr
+    intro g hg
+    simp only [stageOf] at hf hg
+    simp at hf hg
+    simp only [Bool.not_eq_true]
+    exact conflict_areas f g hf.2 hg.2
+
+/-- **One stage for everything races**: a path and an area over it validated concurrently — the reversal in
+place (`invertPoints`) against `ValidatePathForArea`'s reads.  This is the code before the C37 fix. -/
+theorem finish_single_stage_conflict :
+    stageConflict (stageOf "all" [⟨1, .path⟩, ⟨2, .area [1]⟩]) = true := by decide
+
+/-! ## T3: the regenerated facts -/
+
+open B6.Gen.Locksets
+
+def expectedTable : List Access := [
+  ⟨"FeaturesByID", "FindFeatureByID", "cache", "call:Add", true⟩,
+  ⟨"FeaturesByID", "FindFeatureByID", "cache", "call:Get", true⟩,
+  ⟨"FeaturesByID", "FindReferences", "cache", "call:Add", true⟩,
+  ⟨"FeaturesByID", "FindReferences", "cache", "call:Get", true⟩,
+  ⟨"marshalledArea", "Feature", "geometry", "call:Len", true⟩,
+  ⟨"marshalledArea", "Feature", "geometry", "call:PathIDs", true⟩,
+  ⟨"marshalledArea", "Feature", "geometry", "read", true⟩,
+  ⟨"marshalledArea", "Feature", "geometry", "write", true⟩,
+  ⟨"marshalledArea", "Feature", "polygons", "write", true⟩,
+  ⟨"marshalledArea", "MultiPolygon", "geometry", "call:Len", true⟩,
+  ⟨"marshalledArea", "MultiPolygon", "geometry", "call:PathIDs", true⟩,
+  ⟨"marshalledArea", "MultiPolygon", "geometry", "call:Polygon", true⟩,
+  ⟨"marshalledArea", "MultiPolygon", "geometry", "read", true⟩,
+  ⟨"marshalledArea", "MultiPolygon", "geometry", "write", true⟩,
+  ⟨"marshalledArea", "MultiPolygon", "polygons", "read", true⟩,
+  ⟨"marshalledArea", "MultiPolygon", "polygons", "write", true⟩,
+  ⟨"marshalledArea", "Polygon", "geometry", "call:Len", true⟩,
+  ⟨"marshalledArea", "Polygon", "geometry", "call:PathIDs", true⟩,
+  ⟨"marshalledArea", "Polygon", "geometry", "call:Polygon", true⟩,
+  ⟨"marshalledArea", "Polygon", "geometry", "read", true⟩,
+  ⟨"marshalledArea", "Polygon", "geometry", "write", true⟩,
+  ⟨"marshalledArea", "Polygon", "polygons", "read", true⟩,
+  ⟨"marshalledArea", "Polygon", "polygons", "write", true⟩,
+  ⟨"marshalledArea", "featureWithLock", "geometry", "call:Len", false⟩,
+  ⟨"marshalledArea", "featureWithLock", "geometry", "call:PathIDs", false⟩,
+  ⟨"marshalledArea", "featureWithLock", "geometry", "read", false⟩,
+  ⟨"marshalledArea", "featureWithLock", "geometry", "write", false⟩,
+  ⟨"marshalledArea", "featureWithLock", "polygons", "write", false⟩,
+  ⟨"marshalledArea", "fillGeometry", "geometry", "call:Len", false⟩,
+  ⟨"marshalledArea", "fillGeometry", "geometry", "read", false⟩,
+  ⟨"marshalledArea", "fillGeometry", "geometry", "write", false⟩,
+  ⟨"marshalledArea", "fillGeometry", "polygons", "write", false⟩,
+  ⟨"wrappedMarshalledPhysicalFeature", "Polyline", "polyline", "addr", true⟩,
+  ⟨"wrappedMarshalledPhysicalFeature", "Polyline", "polyline", "read", true⟩,
+  ⟨"wrappedMarshalledPhysicalFeature", "Polyline", "polyline", "write", true⟩]
+
+def expectedUnlisted : List Access := [
+  ⟨"FeatureIDs", "Append", "namespaces", "write", true⟩,
+  ⟨"FeatureIDs", "Append", "values", "write", true⟩,
+  ⟨"FeatureIDs", "Swap", "namespaces", "write", false⟩,
+  ⟨"FeatureIDs", "Swap", "values", "write", false⟩,
+  ⟨"NamespacedCounts", "Namespace", "ByNamespace", "write", true⟩,
+  ⟨"Validator", "ValidateArea", "paths", "write", true⟩,
+  ⟨"Validator", "ValidateArea", "queue", "write", true⟩,
+  ⟨"Validator", "ValidatePath", "paths", "write", true⟩,
+  ⟨"Validator", "ValidatePath", "queue", "write", true⟩,
+  ⟨"Validator", "validateArea", "paths", "write", false⟩,
+  ⟨"Validator", "validateQueue", "paths", "write", false⟩,
+  ⟨"Validator", "validateQueue", "queue", "write", false⟩]
+
+def expectedClosure : List Access := [
+  ⟨"Finish", "index", "w.index", "call:Add", true⟩,
+  ⟨"Finish", "index", "wg", "call:Done", false⟩,
+  ⟨"Finish", "validate", "broken", "write", true⟩,
+  ⟨"Finish", "validate", "wg", "call:Done", false⟩]
+
+def expectedSelfCalls : List Access := [
+  ⟨"marshalledArea", "Feature", "featureWithLock", "selfcall", true⟩,
+  ⟨"marshalledArea", "Feature", "fillGeometry", "selfcall", true⟩,
+  ⟨"marshalledArea", "MultiPolygon", "featureWithLock", "selfcall", true⟩,
+  ⟨"marshalledArea", "MultiPolygon", "fillGeometry", "selfcall", true⟩,
+  ⟨"marshalledArea", "Polygon", "featureWithLock", "selfcall", true⟩,
+  ⟨"marshalledArea", "Polygon", "fillGeometry", "selfcall", true⟩,
+  ⟨"marshalledArea", "featureWithLock", "fillGeometry", "selfcall", false⟩]
+
+/-- rows of the methods that are entry points (everything but the lock-free helpers) -/
+def entryRows (t : List Access) (internal : List String) : List Access :=
+  t.filter (fun a => !internal.contains (a.typ ++ "." ++ a.method))
+
+theorem table_matches : B6.Gen.Locksets.table = expectedTable := by decide
+theorem internal_methods_expected :
+    internalMethods = ["marshalledArea.featureWithLock", "marshalledArea.fillGeometry"] := by decide
+/-- every access of an entry method to a cache cell is made under the struct's own mutex -/
+theorem entry_accesses_locked : (entryRows B6.Gen.Locksets.table internalMethods).all (·.locked) = true := by decide
+/-- the lock-free helpers are called only by their own type, and by its entry methods only with the lock held -/
+theorem internal_calls_locked :
+    selfCalls = expectedSelfCalls ∧ (entryRows selfCalls internalMethods).all (·.locked) = true ∧ foreignCalls = [] := by
+  decide
+/-- nothing else in the package touches the cells (the one entry is the constructor's composite literal);
+nothing the walker could not follow; no other field of a mutex-bearing struct is written unexpectedly -/
+theorem no_foreign_access :
+    foreign = ["world.go:NewFeaturesByID:literal FeaturesByID{cache: …}"] ∧ irregular = [] ∧
+    unlistedWrites = expectedUnlisted := by decide
+/-- `Finish`: the worker closures write `broken` and call `w.index.Add` under the local mutex; the function body
+touches neither between starting workers and `wg.Wait()`; two stages, non-areas first; `invertPoints` writes the
+elements of the path's own reference list and is reached from `ValidatePath` only -/
+theorem finish_facts :
+    closureAccesses = expectedClosure ∧ finishStageFilters = ["!=FeatureTypeArea", "==FeatureTypeArea"] ∧
+    unjoinedMainAccesses = [] ∧ invertPointsInPlace = ["(refs)", "f.Get()", "f.ModifyOrAddTag()"] ∧
+    invertPointsCallers = ["ValidatePath"] := by decide
+
+/-- the stages as extracted are race-free for every feature set -/
+theorem finish_extracted_stages_race_free (fs : List BFeature) :
+    ∀ f ∈ finishStageFilters, stageConflict (stageOf f fs) = false := by
+  intro f hf
+  have := finish_facts.2.1
+  rw [this] at hf
+  simp at hf
+  rcases hf with rfl | rfl
+  · exact (finish_stage_race_free fs).1
+  · exact (finish_stage_race_free fs).2
+
+/-! ## from the table to programs -/
+
+def cellId (field : String) : Nat :=
+  if field == "cache" then 0 else if field == "polyline" then 1 else if field == "geometry" then 2 else 3
+
+def toAction (a : Access) : Action :=
+  if a.kind == "read" then .read (cellId a.field) else .write (cellId a.field)
+
+/-- one call of a method, abstracted to its accesses to the cells: under the receiver's mutex (lock 0) when the
+table says every access is locked, bare otherwise -/
+def methodProgram (rows : List Access) : List Action :=
+  if rows.all (·.locked) then [Action.acq 0] ++ rows.map toAction ++ [Action.rel 0] else rows.map toAction
+
+def rowsOf (t : List Access) (typ method : String) : List Access :=
+  t.filter (fun a => a.typ == typ && a.method == method)
+
+theorem heldAfter_accesses (rows : List Access) (k : Nat) :
+    heldAfter (Action.acq 0 :: (rows.map toAction).take k) = [0] := by
+  have : ∀ (as : List Action) (held : List Nat), (∀ a ∈ as, ∃ x, a = .read x ∨ a = .write x) →
+      as.foldl (fun held a => match a with
+        | .acq l => l :: held
+        | .rel l => held.erase l
+        | _ => held) held = held := by
+    intro as
+    induction as with
+    | nil => intro held _; rfl
+    | cons a rest ih =>
+      intro held h
+      simp only [List.foldl_cons]
+      obtain ⟨x, hx⟩ := h a (List.mem_cons_self ..)
+      rcases hx with rfl | rfl <;> exact ih held (fun b hb => h b (List.mem_cons_of_mem _ hb))
+  unfold heldAfter
+  simp only [List.foldl_cons]
+  apply this
+  intro a ha
+  have := List.mem_of_mem_take ha
+  obtain ⟨r, _, rfl⟩ := List.mem_map.mp this
+  unfold toAction
+  split
+  · exact ⟨_, Or.inl rfl⟩
+  · exact ⟨_, Or.inr rfl⟩
+
+theorem methodProgram_disciplined (rows : List Access) (hl : rows.all (·.locked) = true) (x : Nat) :
+    ∀ (pc : Nat) (a : Action), (methodProgram rows)[pc]? = some a → a.cell? = some x →
+      0 ∈ heldAfter ((methodProgram rows).take pc) := by
+  intro pc a hpc hcell
+  unfold methodProgram at hpc ⊢
+  simp only [hl, ↓reduceIte] at hpc ⊢
+  cases pc with
+  | zero => simp at hpc; subst hpc; simp [Action.cell?] at hcell
+  | succ k =>
+    simp only [List.cons_append, List.nil_append, List.take_succ_cons]
+    by_cases hk : k < (rows.map toAction).length
+    · rw [List.take_append_of_le_length (by omega)]
+      rw [heldAfter_accesses]; simp
+    · -- the position is the final `rel`: not an access
+      simp only [List.cons_append, List.nil_append, List.getElem?_cons_succ] at hpc
+      rw [List.getElem?_append_right (by omega)] at hpc
+      have : a = .rel 0 := by
+        simp only [List.length_map] at hpc
+        cases hh : k - rows.length with
+        | zero => rw [hh] at hpc; simp at hpc; exact hpc.symm
+        | succ m => rw [hh] at hpc; simp at hpc
+      subst this
+      simp [Action.cell?] at hcell
+
+/-- **The cache cells of the compact world are race-free** (as far as the extracted table goes): any number of
+goroutines, each calling one entry method of one of the three structs on the same object — no reachable state
+has two of them about to touch the same cell with one of them writing. -/
+theorem compact_cells_race_free (typ : String) (calls : List String)
+    (hentry : ∀ m ∈ calls, ¬ internalMethods.contains (typ ++ "." ++ m) = true)
+    (s : LState)
+    (hr : Reachable lstep (linit (calls.map fun m => methodProgram (rowsOf B6.Gen.Locksets.table typ m))) s)
+    (x : Nat) : ¬ RacyOn s x := by
+  apply lockset_sound _ x 0 (Or.inl _) s hr
+  intro p hp pc a hpc hcell
+  obtain ⟨m, hm, rfl⟩ := List.mem_map.mp hp
+  have hl : (rowsOf B6.Gen.Locksets.table typ m).all (·.locked) = true := by
+    have hall := entry_accesses_locked
+    rw [List.all_eq_true] at hall ⊢
+    intro r hr'
+    unfold rowsOf at hr'
+    have hr2 := List.mem_filter.mp hr'
+    simp at hr2
+    apply hall
+    unfold entryRows
+    apply List.mem_filter.mpr
+    refine ⟨hr2.1, ?_⟩
+    rw [hr2.2.1, hr2.2.2]
+    simpa using hentry m hm
+  exact methodProgram_disciplined _ hl x pc a hpc hcell
+
+/-! ## the hypotheses are satisfiable / the statements are not vacuous -/
+
+-- an undisciplined pair of programs does reach a racy state (so `RacyOn` is not trivially false)
+example : ∃ s, Reachable lstep (linit [[.write 7], [.read 7]]) s ∧ RacyOn s 7 :=
+  ⟨_, Reachable.refl, 0, 1, ⟨[.write 7], 0⟩, ⟨[.read 7], 0⟩, .write 7, .read 7, by decide, rfl, rfl, rfl, rfl, rfl, rfl,
+    Or.inl rfl⟩
+example : Disciplined [[.acq 0, .write 7, .rel 0], [.acq 0, .read 7, .rel 0]] 7 0 := by
+  intro p hp pc a h hc
+  simp at hp
+  rcases hp with rfl | rfl <;>
+    (match pc, h with
+     | 0, h => simp at h; subst h; simp [Action.cell?] at hc
+     | 1, _ => simp [heldAfter]
+     | 2, h => simp at h; subst h; simp [Action.cell?] at hc
+     | n + 3, h => simp at h)
+example : (methodProgram (rowsOf B6.Gen.Locksets.table "wrappedMarshalledPhysicalFeature" "Polyline")).length = 5 := by decide
+example : ((runSched (cellStep 42) (cellInit 2) [0, 0, 0, 0, 0, 0, 0, 0, 0]).map fun s =>
+    (s.cell, s.writes, s.callers.map (·.result))) = some (some 42, 1, [some 42, some 42]) := by decide
+example : ((runSched (lruStep 1 (fun id => if id < 5 then some (id * 10) else none)) (lruInit [[1, 2, 1, 9]])
+    [0, 0, 0, 0, 0, 0, 0, 0, 0, 0, 0]).map fun s => (s.cache, s.queriers.map (·.results))) =
+    some ([(1, 10)], [[(1, some 10), (2, some 20), (1, some 10), (9, none)]]) := by decide
+
+end B6.Props.C35
